@@ -336,6 +336,7 @@ func cmdDump(args []string) int {
 	emit("Tokens", dumpTokens)
 	emit("Enums", dumpEnums)
 	emit("Members", dumpMembers)
+	emit("MapRanges", dumpMapRanges) // harness/inventory.go (C14)
 	fmt.Println("changed:", strings.Join(changed, ","))
 	return 0
 }
